@@ -68,3 +68,8 @@ def runTopa (c : Case) : Verdict :=
   functional (c.get "go") (topaText m) (topaText s)
 
 end Gofasta.Driver
+
+namespace Gofasta.Driver
+open Gofasta.Model Gofasta.Spec Gofasta.Base
+
+end Gofasta.Driver
